@@ -2,8 +2,14 @@
 
 package simrt
 
+import "unsafe"
+
 // RaceBuild reports whether the race detector is compiled in.
 const RaceBuild = false
 
 func raceDisable() {}
 func raceEnable()  {}
+
+func raceAcquire(unsafe.Pointer) {}
+
+func raceReleaseMerge(unsafe.Pointer) {}
